@@ -168,6 +168,7 @@ func loadProg(repo string, overlayRoot string) *Prog {
 	}
 	p.normalise()
 	if os.Getenv("VERIF_NO_NORMALISE") == "" {
+		p.desugarLibraryCalls()
 		p.splitTuples()
 		p.scalarise()
 		p.propagateCopies()
